@@ -308,4 +308,14 @@ theorem parseFirst_encode (n : Nat) (hs : isScalar n = true) (hn : n ≠ 0) :
       (by simp only [hb2, step]; rw [if_pos (by omega)])]
     exact pf_done _ _ _ _ .p0 (by simp only [hb3, step]; rw [if_pos (by omega)])
 
+/-- `(size_t) i` of a non-negative `int64_t` is its value -/
+theorem toSizeT_of_nonneg (i : Int64) (h : 0 ≤ i.toInt) : toSizeT i = i.toInt.toNat := by
+  unfold toSizeT
+  have e1 : i.toUInt64.toNat = i.toBitVec.toNat := rfl
+  have e2 : i.toInt = i.toBitVec.toInt := rfl
+  rw [e1]; rw [e2] at h ⊢
+  rw [BitVec.toInt_eq_toNat_cond] at h ⊢
+  have hlt := i.toBitVec.isLt
+  split at h <;> rename_i hc <;> simp only [hc, if_true, if_false] <;> omega
+
 end BlocV.Mod.Utf8
